@@ -178,10 +178,10 @@ def op_cases(draw, ops=None, dtypes=None, constraint=None, unsupported_rate=0.0,
                  mask_bcast=draw(st.booleans()), rng=draw(st.integers(0, 1000)))
     elif op == "cross_entropy":
         V = draw(st.integers(2, 9))
-        oneD = draw(st.integers(0, 4)) == 0
+        oneD = draw(st.sampled_from([False, False, False, True]))   # unbatched (1-D) logits
         c.update(V=V, B=None if oneD else draw(st.integers(1, 7)), reduction=draw(st.sampled_from(["mean", "sum", "default"])),
                  ignore=draw(st.sampled_from([None, None, -100, -1, 0, V - 1])), ign_frac=draw(st.sampled_from([0.0, 0.0, 0.3, 0.6])),
-                 mult=draw(mults), prob=draw(st.integers(0, 9)) == 0)
+                 mult=draw(mults), prob=draw(st.sampled_from([False, True] if oneD else [False, False, False, False, True])))   # class-probability targets
     elif op == "mse_loss":
         c.update(shape=b + [draw(st.integers(1, 6))], reduction=draw(st.sampled_from(["mean", "sum", "default"])))
     c["seedA"] = draw(seeds); c["seedB"] = draw(seeds); c["seedG"] = draw(seeds)
